@@ -341,14 +341,25 @@ def spark_names(case):
     return res
 
 
+def content_key(d):
+    """description of the CTE chain of a DataFrame; alias names do not enter the CTE's text"""
+    if d[0] == "base":
+        return d[1]
+    if d[0] == "alias":
+        return "alias(" + content_key(d[1]) + ")"
+    return d[0] + "(" + content_key(d[1]) + "," + cc.key(d[2]) + ")"
+
+
 def signature(case, raised):
     f = features(case)
     steps, kinds = case["steps"], f["kinds"]
-    if f["undocumented"]:
-        return "C02/how-spelling-compared-case-sensitively"
-    if f["on_none_non_inner"]:
-        k = kinds[f["on_none_non_inner"][0]]
-        return "C02/on-none/" + ("semi-anti-becomes-cross-product" if k in ("semi", "anti") else "outer-becomes-cross-product")
+    # the right DataFrame has the same CTE text (hence name) as a table already in the join, and more than one of its CTEs
+    # collides: join() then keeps using the name the right table had BEFORE it was renamed
+    tabs_ = [case["left"]] + [s["right"] for s in steps]
+    for i, s in enumerate(steps):
+        if i >= 1 and s["on"] and s["on"][0] == "names" and tabs_[i + 1][0] != "base" \
+                and content_key(tabs_[i + 1]) in [content_key(t) for t in tabs_[1:i + 1]]:
+            return "C02/common-ancestor/name-join-uses-stale-name-of-renamed-duplicate-cte"
     fin = case.get("fin")
     sn = spark_names(case)
     # a name join whose left side has two columns named like the key: every one of them is dropped
@@ -406,5 +417,12 @@ def signature(case, raised):
         tabs = [case["left"], steps[0]["right"]]
         if tabs[0][0] != "base" and tabs[1][0] == "base":
             return "C02/common-ancestor/left-side-derived-from-right-side"
+    if f["on_none_non_inner"]:
+        # none of the shapes above: the missing condition itself is what goes wrong
+        k = kinds[f["on_none_non_inner"][0]]
+        return "C02/on-none/" + ("semi-anti-becomes-cross-product" if k in ("semi", "anti") else "outer-becomes-cross-product")
+    if f["undocumented"]:
+        # none of the kind-specific shapes: the spelling itself (upper case / camel case) is what goes wrong
+        return "C02/how-spelling-compared-case-sensitively"
     return ("C02/raises:" if raised else "C02/differs:") + case.get("shape", "?") + ":" + ">".join(
         f"{k}/{fm}" for k, fm in zip(kinds, f["forms"])) + (":" + fin[0] if fin else "")
